@@ -149,5 +149,30 @@ PROPS["C18"] = dict(
     ],
 )
 
+PROPS["C16"] = dict(
+    title="Digests, HMAC and CBC ciphers compute the standard functions for all inputs",
+    level="model_checking",
+    trusted_base=COMMON_TB + ["MD5 / SHA-1 compression functions replaced by recorders (models/stubs_c16.c): only buffering, padding, length encoding and chunking are decided",
+                              "HMAC checked over a recording digest with block size 8 and digest size 4 (crypto::hmac is generic in both)"],
+    assumptions=["message lengths enumerated around every block boundary up to 130 bytes, two appends with 6 split choices; contents symbolic"],
+    outside="the compression functions themselves (no SAT verdict in 240 s on any back end, see DESIGN.md), SHA-2/AES (OpenSSL in this build), bundled-vs-library agreement, CBC",
+    obligations=[
+        dict(id="C16.a", harness="C16_digests.cpp", entry="h_c16a_md5_padding", ctors=False, clang_flags=["-fno-inline"], drop=["md5_process"], roots=["verif_record_block"], models=["stubs_c16.c"],
+             desc="md5_init/append/finish hand the compression function exactly the RFC 1321 padded blocks for every split into two appends",
+             tiers=T(quick=dict(split=[list(range(18)), [0, 2, 3, 5]], unwind=140, timeout=600, bounds="message length in {0,1,2,54..57,63..65,118..121,127..130} x 4 split points; symbolic content"),
+                     thorough=dict(split=[list(range(18)), [0, 1, 2, 3, 4, 5]], unwind=140, timeout=1200, bounds="same lengths x 6 split points"))),
+        dict(id="C16.b", harness="C16_digests.cpp", entry="h_c16b_sha1_padding", ctors=False, clang_flags=["-fno-inline"], drop=["sha113process_blockEv"], roots=["verif_record_block"], models=["stubs_c16.c"],
+             desc="sha1::process_bytes/get_digest hand the compression function exactly the FIPS 180 padded blocks (big-endian length)",
+             tiers=T(quick=dict(split=[list(range(18)), [0, 2, 3, 5]], unwind=140, timeout=600, bounds="message length in {0,1,2,54..57,63..65,118..121,127..130} x 4 split points; symbolic content"),
+                     thorough=dict(split=[list(range(18)), [0, 1, 2, 3, 4, 5]], unwind=140, timeout=1200, bounds="same lengths x 6 split points"))),
+        dict(id="C16.c", harness="C16_digests.cpp", entry="h_c16c_hmac_schedule", ctors=False, clang_flags=["-fno-inline"],
+             desc="crypto::hmac init/append/readout: inner = (K' xor 0x36)||msg, outer = (K' xor 0x5c)||inner digest, K' = key or digest(key) zero padded; object re-primed after each readout (two messages)",
+             tiers=T(quick=dict(split=[[0, 1, 7, 8, 9, 12], [0, 1, 5]], unwind=70, timeout=600, bounds="key length in {0,1,7,8,9,12} (block 8) x message length in {0,1,5}; symbolic key, message and digests"))),
+        dict(id="C16.e", harness="C16_digests.cpp", entry="h_c16e_key_hex", ctors=False, clang_flags=["-fno-inline"],
+             desc="crypto::key::set_hex accepts exactly even-length hexadecimal strings; bytes are the hex pairs",
+             tiers=T(quick=dict(split=[[0, 1, 2, 3, 4, 6]], unwind=100, timeout=600, bounds="every string of length 0,1,2,3,4,6"))),
+    ],
+)
+
 # properties for which no obligation can be built with this technique (reason required)
 NOT_APPLICABLE = {}
